@@ -181,3 +181,67 @@ def eval_kin(expr, P: dict, cse=True):
         args.append(P[int(name[1:])])
     with np.errstate(all="ignore"):
         return np.asarray(f(*args))
+
+
+# ---- two-stage evaluation of a HelicityModel on four-momenta ----------------------------------------
+class ModelEvaluator:
+    """intensity(P) for a HelicityModel: kinematic variables are lambdified on the momenta,
+    every amplitude definition on (kinematic variables), and the unfolded intensity on
+    placeholders for the amplitude symbols plus the alignment angles.  (The flat
+    model.expression of an aligned spinful model is far too large to lambdify.)"""
+
+    def __init__(self, model, params: dict | None = None, cse=True):
+        self.model = model
+        pars = dict(model.parameter_defaults)
+        if params:
+            pars.update(params)
+        self.pars = pars
+        self.kin = {}
+        for s, e in model.kinematic_variables.items():
+            e = e.xreplace(pars).doit()
+            ps = sorted(e.free_symbols, key=str)
+            self.kin[s] = (ps, sp.lambdify(ps, e, "numpy", cse=cse))
+        self.amps = {}
+        for a, e in model.amplitudes.items():
+            e = e.xreplace(pars).doit()
+            fs = sorted(e.free_symbols, key=str)
+            self.amps[a] = (fs, sp.lambdify(fs, e, "numpy", cse=cse))
+        inten = model.intensity.xreplace(pars).doit()
+        atoms = sorted(inten.atoms(sp.Indexed), key=str)
+        self.place = {a: sp.Dummy(f"A{i}") for i, a in enumerate(atoms)}
+        inten = inten.xreplace(self.place)
+        self.int_syms = sorted(inten.free_symbols, key=str)
+        self.f = sp.lambdify(self.int_syms, inten, "numpy", cse=cse)
+        self.undefined = [a for a in atoms if a not in model.amplitudes]
+
+    def kinematics(self, P):
+        n = len(next(iter(P.values())))
+        vals = {}
+        with np.errstate(all="ignore"):
+            for s, (ps, f) in self.kin.items():
+                v = f(*[P[int(str(x)[1:])] for x in ps])
+                vals[s] = np.broadcast_to(np.asarray(v), (n,)) if np.ndim(v) == 0 else np.asarray(v)
+        return vals
+
+    def __call__(self, P):
+        n = len(next(iter(P.values())))
+        kv = self.kinematics(P)
+        byplace = {}
+        with np.errstate(all="ignore"):
+            for a, d in self.place.items():
+                if a not in self.amps:
+                    raise KeyError(f"intensity uses undefined amplitude {a}")
+                fs, f = self.amps[a]
+                v = f(*[kv[s] for s in fs])
+                byplace[d] = np.broadcast_to(np.asarray(v, dtype=complex), (n,))
+            args = [byplace[s] if s in byplace else kv[s] for s in self.int_syms]
+            out = self.f(*args)
+        return np.real(np.broadcast_to(np.asarray(out), (n,)))
+
+
+def random_couplings(model, rng):
+    out = {}
+    for k, v in model.parameter_defaults.items():
+        if k.name.startswith(("C_", "H_")):
+            out[k] = complex(rng.uniform(0.3, 1.5) * np.exp(1j * rng.uniform(0, 2 * np.pi)))
+    return out
